@@ -519,7 +519,12 @@ class tridonic(hid):
                 else:
                     self._log.debug("Bus watch waiting for data, no timeout")
                     await self._bus_watch_data_available.wait()
-                self._bus_watch_data_available.clear()
+            # Always clear the flag: when several reports were queued
+            # while we were not waiting (e.g. during the initialisation
+            # handshake) it is still set, and the next wait with a
+            # command pending would return at once and be taken for
+            # a timeout
+            self._bus_watch_data_available.clear()
 
             # Figure out why we've woken up
             if len(self._bus_watch_data) == 0:
